@@ -105,12 +105,7 @@ def follow_bytes(rule, crate, wanted, label):
                 rule.anchor_missing(fp)
                 return
             terms[(name, fp)] = tc[0]
-        for name, fp in (("parse::is_delimiter", "parse::is_delimiter"), ("read::is_delimiter", "parse::read::is_delimiter")):
-            pc = classes.predicate_class(crate, fp)
-            if pc is None:
-                rule.anchor_missing(fp)
-                return
-            terms[(name, fp)] = pc
+        terms.update(classes.delimiter_classes(crate, rule.note))
     except classes.Inexact as e:
         rule.violation("<classes>", "inexact", str(e))
         return
